@@ -166,18 +166,25 @@ structure Head where
   ch : Nat     -- channels: parts | 1 | 2·edges
 deriving DecidableEq, Repr
 
+/-- A head as configured: the channel count is a function of the configured **list** (its
+    length — duplicates, reversed duplicates of an edge and repeated part names all count; the
+    heads do no de-duplication, exactly like the data pipeline's `generate_pafs`, which makes one
+    field per listed edge). -/
 inductive HeadKind
-  | confmaps (parts : Nat)   -- single-instance / centered-instance / multi-instance
-  | centroid
-  | pafs (edges : Nat)
-  | classMaps (classes : Nat)
+  | confmaps (parts : List Nat)          -- single-instance / centered-instance / multi-instance: `len(part_names)`
+  | centroid                             -- 1
+  | pafs (edges : List (Nat × Nat))      -- `int(len(edges) * 2)`
+  | classMaps (classes : List Nat)       -- `len(classes)`
 deriving DecidableEq, Repr
 
 def HeadKind.channels : HeadKind → Nat
-  | .confmaps p => p
+  | .confmaps p => p.length
   | .centroid => 1
-  | .pafs e => 2 * e
-  | .classMaps c => c
+  | .pafs e => 2 * e.length
+  | .classMaps c => c.length
+
+/-- the head record `Model` works with -/
+def HeadKind.toHead (k : HeadKind) (os : Nat) : Head := { os := os, ch := k.channels }
 
 structure Cfg where
   fam : Family
